@@ -841,6 +841,21 @@ def gen_commanded(r, cases, thorough):
         cases.append(cfg(mode, ndev, src, q=r.choice([40, 40, 3]) if not backp else r.choice([2, 3]), slots=r.choice([5, 3]), t0=r.choice(T0S), hb=hb) + ' | ' + ' ; '.join(ops))
 
 
+def gen_late_config(r, cases, thorough):
+    """configuration calls after the node has been initialised (SetN2kSource, sizing calls) are documented to have no effect: in particular
+    the address cannot be changed behind the claim procedure"""
+    for _ in range(12 if not thorough else 200):
+        mode = r.choice([1, 2, 2])
+        ndev = r.choice([1, 2])
+        src = r.choice([22, 30, 100])
+        ops = [smsg(r, 0, pgn=127250, n=8), 'P']
+        for _k in range(r.randint(1, 3)):
+            ops.append('Z %d %d' % (4 + r.randrange(ndev), r.choice([50, 51, src, 254, 0, 251])))
+            ops += [smsg(r, r.randrange(ndev), pgn=r.choice(SINGLE + [129029])), 'T %d' % r.choice([0, 1, 100, 251]), 'P', iso_request(50, 255, 60928), 'P']
+        ops += ['Z 0 3', 'Z 1 1', smsg(r, 0, pgn=129029), 'P']
+        cases.append(cfg(mode, ndev, src, t0=r.choice(T0S)) + ' | ' + ' ; '.join(ops))
+
+
 def gen(seed, tier):
     r = random.Random(seed * 7919 + 4)
     thorough = tier != 'quick'
@@ -851,6 +866,7 @@ def gen(seed, tier):
     gen_null(r, cases, thorough)
     gen_backpressure(r, cases, thorough)
     gen_commanded(r, cases, thorough)
+    gen_late_config(r, cases, thorough)
     for _ in range(150 if not thorough else 3000):
         cases.append(random_history(r, n_ops=r.choice([10, 25, 40])))
     return cases
